@@ -21,7 +21,7 @@ list of action codes the thread performs - its program as a function of what it 
   * `#[cfg(feature = "verif")] <stmt>` is skipped by the parser (rs2lean.py `Parser.block`): the production configuration is translated.
 
 Action codes (`HC.ConcProg.Act` in Proofs/GenConc.lean decodes them):
-  1 ACQ_R  2 REL_R  3 ACQ_W  4 REL_W   10 ALLOC words   11 COPY words (shared -> local, under the read lock)   12 EXT old cnt (lock free)
+  1 ACQ_R  2 REL_R  3 ACQ_W  4 REL_W   10 ALLOC words   11 COPY words (shared -> local, under the read lock)   12 MUL a la b lb c lc (compute loop, lock free: words [c, c+lc) := [a, a+la) * [b, b+lb))
   13 STORE words (local -> shared, under the write lock)   14 CALL max_power (nested `compute_secret_key_array`)
   15 READ lo hi (use phase: a slice of the snapshot)   16 READ_FIRST (size-2 path: entry 0)   17 KEYS off cnt (generate_kswitch_keys)
   20 GEN idx (generate + store table idx, under the write lock)   21 USE idx len (permute with table idx of that length)
@@ -87,25 +87,38 @@ def make(T):
             return self.ctext(e)
 
         def lookup(self, table, c):
+            """as `Skeleton.lookup`, plus: sticky wildcards `$Name`; EXPRESSION wildcards `$$name` (any non-empty text; the replacement gets it in
+            parentheses); a wildcard that occurs twice in a key must match the same text; `${name}` in a replacement = the identifier (so that
+            `${x}__lo` names a pseudo-local derived from the source's local)"""
             tab = self.sk.get(table, {})
             if c is None: return None, None
             if c in tab: return c, tab[c]
             for key, rep in tab.items():
                 if "$" not in key: continue
-                names = re.findall(r"\$(\w+)", key)
-                if len(set(names)) != len(names): self.lo.fail(f"skeleton key `{key}`: a wildcard occurs twice")
+                names = re.findall(r"\$\$?(\w+)", key)
                 if table == "exprs" and any(n[0].isupper() and n not in self.sticky for n in names): continue
+                seen = set()
                 def grp(m):
-                    n = m.group(1)
+                    ex, n = m.group(1), m.group(2)
+                    if n in seen: return "(?P=%s)" % n
+                    seen.add(n)
+                    if ex: return "(?P<%s>.+?)" % n
                     if n in self.sticky: return "(?P<%s>%s)" % (n, re.escape(self.sticky[n]))
                     return "(?P<%s>[A-Za-z_][A-Za-z0-9_]*)" % n
-                rx = re.sub(r"\\\$(\w+)", grp, re.escape(key))
+                rx = re.sub(r"\\\$(\\\$)?(\w+)", grp, re.escape(key))
                 m = re.fullmatch(rx, c)
                 if m:
+                    exprs = set(re.findall(r"\$\$(\w+)", key))
                     for n, v in m.groupdict().items():
+                        if n in exprs:
+                            if v.count("(") != v.count(")") or v.count("[") != v.count("]"): break      # not a well-bracketed sub-expression
+                            rep = re.sub(r"\$\$" + n + r"\b", "(" + v.replace("\\", "\\\\") + ")", rep)
+                            continue
                         if n[0].isupper(): self.sticky[n] = v
-                        rep = re.sub(r"\$" + n + r"\b", v, rep)
-                    return key, rep
+                        rep = rep.replace("${%s}" % n, v)
+                        rep = re.sub(r"(?<!\$)\$" + n + r"\b", v, rep)
+                    else:
+                        return key, rep
             return None, None
 
         def snippet(self, text): return T.parse_snippet(text, "stmts", self.fn["name"])
@@ -165,6 +178,11 @@ def make(T):
                         self.used.add(key); out += self.snippet(rep); continue
                     n0 = len(self.live)
                     out.append(("for", s[1], self.expr(s[2]), self.block(s[3]), s[4])); continue
+                if s[0] == "unsafe" and self.sk.get("unsafe_transparent"):
+                    # `unsafe { stmts }` whose statements ALL have readings in the table: flattened (its `let`s are pseudo-locals `x__lo`, `x__len`)
+                    inner, itail = self.block(s[1])
+                    if itail is not None: self.lo.fail("`unsafe` block with a value")
+                    out += inner; continue
                 if s[0] == "unsafe":
                     if "unsafe" not in self.sk.get("effects", {}): self.lo.fail("`unsafe` block without a reading in the skeleton table")
                     self.used.add("unsafe"); out += self.snippet(self.sk["effects"]["unsafe"]); continue
@@ -207,20 +225,28 @@ RW_GUARDS = {GR: ("trace.push(1);", "trace.push(2);"), GW: ("trace.push(3);", "t
 
 # `compute_secret_key_array` (Decryptor and KeyGenerator: the same table).  Observations: `len_r` / `len_w` = `len()` of the shared vector
 # under the read / the write lock.  The local array is tracked by its length `arr_len` (its CONTENTS are the hand model's `newArr`);
-# `copy_from_slice` panics unless both ranges are in bounds and equally long; the compute loop (body: `unsafe` raw slices +
-# `dyadic_product_p(last, first, .., next)`) is the data effect EXT old cnt = `extend A cnt` of Model/Conc.lean from index `old`.
+# `copy_from_slice` panics unless both ranges are in bounds and equally long; the compute loop is translated (see the table).
 SK_COMPUTE = {
     "sig": "fn compute_secret_key_array(max_power: usize, n: usize, k: usize, len_r: usize, len_w: usize) -> Vec<usize>",
     "prologue": "let mut trace = vec![];", "epilogue": "trace",
     "handles": [KCD, KCD + ".parms()", KCD + ".parms().coeff_modulus()"],
-    "guards": RW_GUARDS,
+    "guards": RW_GUARDS, "unsafe_transparent": True,
     "exprs": {KCD + ".parms().coeff_modulus().len()": "k", KCD + ".parms().poly_modulus_degree()": "n",
               GR + ".len()": "len_r", GW + ".len()": "len_w", "$Arr.len()": "arr_len"},
     "effects": {
         "let $Arr = vec![0; $a * $b * $c]": "let arr_len = $a * $b * $c; trace.push(10); trace.push(arr_len);",
         "$Arr[..$a * $p].copy_from_slice(&%s[..$b * $q])" % GR:
             "assert!($a * $p <= arr_len); assert!($b * $q <= len_r); assert!($a * $p == $b * $q); trace.push(11); trace.push($b * $q);",
-        "for $i in 0..$new - $old": "trace.push(12); trace.push($old); trace.push($new - $old);",
+        # the compute loop is TRANSLATED (its trip count and the index arithmetic of the three raw slices come from the source):
+        # `arr[lo..hi].as_mut_ptr()` / `arr[..hi].as_ptr()` = bounds check of the range, pointer to word `lo`; `from_raw_parts(ptr, len)` = the
+        # `len` words from there; `dyadic_product_p(a, b, n, moduli, c)` = MUL: c := a * b (component-wise, all three inside the array)
+        "let $x = $Arr[$$lo..$$hi].as_mut_ptr()": "assert!($$lo <= $$hi); assert!($$hi <= arr_len); let ${x}__lo = $$lo;",
+        "let $x = $Arr[..$$hi].as_ptr()": "assert!($$hi <= arr_len); let ${x}__lo = 0;",
+        "let $x = std::slice::from_raw_parts($x, $p)": "let ${x}__len = $p;",
+        "let $x = std::slice::from_raw_parts_mut($x, $p)": "let ${x}__len = $p;",
+        "polymod::dyadic_product_p($a, $b, $n, %s.parms().coeff_modulus(), $c)" % KCD:
+            "assert!(${a}__lo + ${a}__len <= arr_len); assert!(${b}__lo + ${b}__len <= arr_len); assert!(${c}__lo + ${c}__len <= arr_len); "
+            "trace.push(12); trace.push(${a}__lo); trace.push(${a}__len); trace.push(${b}__lo); trace.push(${b}__len); trace.push(${c}__lo); trace.push(${c}__len);",
         "*%s = $Arr" % GW: "trace.push(13); trace.push(arr_len);"},
     # a variant without the re-check does not read the length under the write lock: it is TRANSLATED (and breaks the equality theorem)
     "optional": [GW + ".len()"]}
